@@ -245,6 +245,10 @@ func c13DecodeAll(ws [][]byte) []c13Msg {
 type c13Script struct {
 	IntervalUs uint64      `json:"interval_us"`
 	Steps      [][2]uint64 `json:"steps"` // fseid, sleep before the call in microseconds
+	// backlog scripts: the channel has room for Cap values and its reader starts only StallUs microseconds after the
+	// first call (0 = the channel is drained after every call and never fills)
+	Cap     int    `json:"cap"`
+	StallUs uint64 `json:"stall_us"`
 }
 
 type c13Event struct {
@@ -259,6 +263,10 @@ func c13RunScript(s c13Script) (res map[string]interface{}) {
 			res = map[string]interface{}{"panic": fmt.Sprint(r)}
 		}
 	}()
+
+	if s.Cap > 0 {
+		return c13RunBacklog(s)
+	}
 
 	ch := make(chan uint64, 2*len(s.Steps)+8)
 	n := NewDownlinkDataNotifier(ch, time.Duration(s.IntervalUs)*time.Microsecond)
@@ -289,6 +297,78 @@ func c13RunScript(s c13Script) (res map[string]interface{}) {
 	}
 
 	return map[string]interface{}{"events": events}
+}
+
+// c13RunBacklog: the reader of the report channel is late (the PFCP side is busy), so the channel fills up. Every value the
+// notifier decides to forward must still arrive once the reader runs: calls are made by one goroutine in order, the reader
+// collects until the caller is done and the channel is empty. Got of a step = the value, if it arrived (attributed in call
+// order, one arrival per forwarded call).
+func c13RunBacklog(s c13Script) map[string]interface{} {
+	ch := make(chan uint64, s.Cap)
+	n := NewDownlinkDataNotifier(ch, time.Duration(s.IntervalUs)*time.Microsecond)
+	events := make([]c13Event, len(s.Steps))
+	start := time.Now()
+	done := make(chan struct{})
+
+	go func() {
+		defer close(done)
+
+		for i, st := range s.Steps {
+			if st[1] > 0 {
+				time.Sleep(time.Duration(st[1]) * time.Microsecond)
+			}
+
+			lo := time.Since(start)
+			// a call blocked on the full channel returns late: [Lo, Hi] still encloses the moment of the decision
+			n.Notify(st[0])
+			events[i] = c13Event{Lo: int64(lo), Hi: int64(time.Since(start)), Got: []uint64{}}
+		}
+	}()
+
+	time.Sleep(time.Duration(s.StallUs) * time.Microsecond)
+
+	arrived := []uint64{}
+	deadline := time.After(20 * time.Second)
+	callerDone := false
+
+collect:
+	for {
+		select {
+		case v := <-ch:
+			arrived = append(arrived, v)
+		case <-done:
+			callerDone = true
+			done = nil
+		case <-deadline:
+			break collect
+		default:
+			if callerDone {
+				break collect
+			}
+
+			time.Sleep(50 * time.Microsecond)
+		}
+	}
+
+	if !callerDone {
+		return map[string]interface{}{"panic": "backlog: Notify did not return within 20 s after the reader started"}
+	}
+
+	// attribute arrivals to calls in order (the channel is FIFO and there is one caller)
+	k := 0
+	for i, st := range s.Steps {
+		if k < len(arrived) && arrived[k] == st[0] {
+			events[i].Got = []uint64{arrived[k]}
+			k++
+		}
+	}
+
+	res := map[string]interface{}{"events": events}
+	if k != len(arrived) {
+		res["panic"] = fmt.Sprintf("backlog: %d values arrived that no call explains: %v", len(arrived)-k, arrived[k:])
+	}
+
+	return res
 }
 
 // ---------------------------------------------------------------- bess listener
